@@ -222,16 +222,21 @@ def build_script(ctx, exe, nblocks, nmax, n_interior, n_loss, n_msc):
         lines.append(b.grid_line(2))
         b.loss_e = [logu(rng, b.emin * 0.3, b.emax * 1.5) for _ in range(n_loss)]
         b.loss_e += [b.en[rng.below(b.n)] for _ in range(2)]
+        lines.append(b.grid_line(1))
         lines += ["range 2 %s" % hx(e) for e in b.loss_e]
+        lines += ["xs 1 %s" % hx(e) for e in b.loss_e]
         b.all_e = sorted(set([e for e, _ in b.energies] + b.loss_e))
         lines += ["log %s" % hx(e) for e in b.all_e]
     _, out = vlib.run_lines([exe], lines)
     k = 0
     for b in blocks:
-        k += 1
-        b.loss_r = []
+        k += 2
+        b.loss_r, b.loss_rate = [], []
         for e in b.loss_e:
             b.loss_r.append(fl(out[k]) if is_val(out[k]) else None)
+            k += 1
+        for e in b.loss_e:
+            b.loss_rate.append(fl(out[k]) if is_val(out[k]) else None)
             k += 1
         b.loge = {}
         for e in b.all_e:
@@ -276,7 +281,7 @@ def build_script(ctx, exe, nblocks, nmax, n_interior, n_loss, n_msc):
         rs += [logu(rng, rt[0], rt[-1]) for _ in range(max(4, n_interior // 2))]
         for r in rs:
             add("invrange 2 %s" % hx(r), "invrange", bi, r)
-        for e, r in zip(b.loss_e, b.loss_r):
+        for e, r, rate0 in zip(b.loss_e, b.loss_r, b.loss_rate):
             if r is None or not (r > 0) or not math.isfinite(r):
                 continue
             add("invrange 2 %s" % hx(r), "roundtrip", bi, e, r)
@@ -284,6 +289,10 @@ def build_script(ctx, exe, nblocks, nmax, n_interior, n_loss, n_msc):
             lim = rng.choice([0.01, 0.01, 0.05, 0.2, 1.0, logu(rng, 1e-4, 1.0)])
             steps = [r, ulps(r, -1), r * 0.5, r * logu(rng, 1e-9, 1.0), r * logu(rng, 1e-3, 1.0),
                      r * rng.unit(), r * rng.unit()]
+            if rate0 and rate0 > 0:       # either side of the linear / range-curve switch
+                sw = lim * e / rate0
+                steps += [t for t in (sw * (1 - 1e-6), ulps(sw, -2), sw, ulps(sw, 2),
+                                      sw * (1 + 1e-6)) if 0 < t <= r]
             grp = rng.next()
             for s in sorted(set(steps)):
                 if s > 0:
@@ -382,6 +391,7 @@ class Oracle:
         self.lastbin = []         # (bi, value, bin)
         self.lastbin_effect = (0.0, None)   # largest relative deviation from the last knot value
         self.back, self.switch, self.fullrange = [], [], []
+        self.worst_round = (0.0, None)
         self.ebin = {}            # (bi, E) -> bin returned by the real find | None outside
 
     def count(self, k, n=1):
@@ -614,8 +624,22 @@ class Oracle:
                 linear = not (s * rt >= e * lim)      # the branch the real code takes
                 self.count("eloss_linear" if linear else "eloss_curve")
                 if not (0 <= l <= e):
+                    # the curve branch computes E - InverseRange(Range(E) - step): its rounding
+                    # error is that of the range round trip (conditioning of the bin of E)
+                    reg = self.region(bi, e)
+                    cond = 1.0
+                    rtab = b.tables[2]
+                    if isinstance(reg, int):
+                        cond += (rtab[reg + 1] / (rtab[reg + 1] - rtab[reg])
+                                 * (b.en[reg + 1] - b.en[reg]) / e)
+                    slack = 64 * EPS * cond * e
                     if linear and lim > 1:
                         self.count("excluded_limit_gt_1")
+                    elif not linear and -slack <= l <= e + slack:
+                        self.count("loss_outside_bounds_within_rounding")
+                        if abs(min(l, e - l)) > self.worst_round[0]:
+                            self.worst_round = (abs(min(l, e - l)), {"op": line, "E": e, "loss": l,
+                                                                     "step": s, "range": r})
                     else:
                         self.fail("meanloss-bounds", "mean energy loss outside [0, E]", bi, [line],
                                   {"E": e, "range": r, "step": s, "loss": l, "limit": lim,
@@ -629,12 +653,12 @@ class Oracle:
                                                             "limit": lim, "dedx": rt}))
                 if prev is not None:
                     if prev[6] == linear:
-                        if l < prev[1] * (1 - 1e-12) - 1e-300:
+                        if l < prev[1] - 1e-12 * abs(prev[1]) - 64 * EPS * e:
                             self.fail("meanloss-not-monotone", "mean loss decreases with step "
                                       "length within one branch", bi, [prev[5], line],
                                       {"E": e, "range": r, "steps": [prev[0], s],
                                        "loss": [prev[1], l], "limit": lim, "linear": linear})
-                    elif l < prev[1] * (1 - 1e-12):
+                    elif l < prev[1] - 1e-12 * abs(prev[1]) - 64 * EPS * e:
                         # excluded point of meanLoss_monotone_across_switch_partial
                         self.count("excluded_switch_decrease")
                         if b.consistent and e <= b.en[-1] and e >= b.en[0]:
@@ -715,26 +739,59 @@ def diff_streams(script, a, b):
     return diverged
 
 
-def asan_lastbin(ctx, blocks, wit):
-    """does XsCalculator read past the table when find returns size-1?  (ASan build, table
-    alone and last in its `reals` collection)"""
+def corpus_files():
+    d = vlib.os.path.join(vlib.CORPUS, "C14")
+    if not vlib.os.path.isdir(d):
+        return []
+    return sorted(vlib.os.path.join(d, f) for f in vlib.os.listdir(d) if f.endswith(".ops"))
+
+
+def run_corpus(ctx, exe, model_ok):
+    """minimised past disagreements / witnesses: model = implementation, and the real find
+    never returns size-1"""
+    n, bad, last = 0, [], []
+    for f in corpus_files():
+        ops = [l.rstrip("\n") for l in open(f) if l.strip() and not l.startswith("#")]
+        _, a = vlib.run_lines([exe], ops)
+        n += len(ops)
+        size = None
+        for l, o in zip(ops, a):
+            w = l.split()
+            if w[0] == "xsgrid":
+                size = int(w[5])
+            if w[0] == "ugfind" and o.isdigit() and size and int(o) + 1 >= size:
+                last.append({"file": f, "ops": ops, "op": l, "returned_bin": int(o), "size": size})
+            if o == "oob":
+                last.append({"file": f, "ops": ops, "op": l, "answer": "oob"})
+        if model_ok:
+            _, b = vlib.run_lines([vlib.model_exe("C14")], ops)
+            for d in diff_streams(ops, a, b):
+                d["file"] = f
+                bad.append(d)
+    return n, bad, last
+
+
+def asan_replay(ops_raw):
+    """run ops (with the unguarded `xsraw` / `rangeraw`) on the ASan build of the harness"""
     exe, log, _ = vlib.build_harness("calc", HARNESS["calc"], san=True)
     if exe is None:
         return {"asan_build": "failed", "log": log[-800:]}
+    rc, out = vlib.sh([exe], input="\n".join(ops_raw) + "\n", timeout=300)
+    rep = [l for l in out.split("\n") if "ERROR" in l or "READ of" in l or "located" in l
+           or "runtime error" in l][:4]
+    return {"ops": ops_raw, "asan_exit": rc, "asan_report": rep}
+
+
+def asan_lastbin(ctx, blocks, wit):
+    """does XsCalculator read past the table when find returns size-1?  (ASan build, table
+    alone and last in its `reals` collection)"""
     bi, v, _ = wit
     b = blocks[bi]
     line = "xsgrid 0 %s %s none %d 0 %s" % (hx(b.front), hx(b.back), b.n,
                                             " ".join(hx(t) for t in b.tables[0][:b.n]))
-    e = math.exp(v)
-    cands = [e] + [ulps(b.emax, -k) for k in range(1, 64)]
-    for c in cands:
-        _, o = vlib.run_lines([vlib.model_exe("C14")], [line, "xs 0 " + hx(c)])
-        if len(o) > 1 and o[1] == "oob":
-            rc, out = vlib.sh([exe], input=line + "\nxsraw 0 " + hx(c) + "\n", timeout=120)
-            return {"ops": [line, "xsraw 0 " + hx(c)], "energy": c, "asan_exit": rc,
-                    "asan_report": [l for l in out.split("\n") if "ERROR" in l or "READ" in l
-                                    or "located" in l][:4]}
-    return {"asan": "no energy with bin+1 == size found for this grid at off=0"}
+    cands = [e for e in b.all_e if b.loge.get(e) == v] + [math.exp(v)] \
+        + [ulps(b.emax, -k) for k in range(1, 64)]
+    return asan_replay([line] + ["xsraw 0 " + hx(c) for c in cands[:8]])
 
 
 def run(ctx):
@@ -751,6 +808,10 @@ def run(ctx):
     mult = 1 if quick else 8
     if broken:
         mult *= 2
+    n_corpus, corpus_bad, corpus_last = run_corpus(ctx, exe, ps["model_ok"])
+    if corpus_bad:
+        broken.append(f"correspondence: corpus ops differ ({corpus_bad[0]['file']}: "
+                      f"{corpus_bad[0]['op'][:60]})")
     blocks, script, meta = build_script(ctx, exe, nblocks=40 * mult, nmax=48 if quick else 200,
                                         n_interior=24, n_loss=6, n_msc=3)
     mscript, mmeta = gen_misc(ctx.rng, 400 * mult)
@@ -796,6 +857,27 @@ def run(ctx):
             continue
         seen.add(key)
         ctx.violation("oracle:" + key, "real code: " + what, replay)
+    asan_info = None
+    if not quick:
+        # sanitizer run of the unguarded calculators on the corpus witnesses (thorough tier)
+        raw = []
+        for f in corpus_files():
+            for l in open(f):
+                w = l.split()
+                if w and w[0] == "xsgrid":
+                    raw.append(l.strip())
+                elif w and w[0] in ("xs", "range"):
+                    raw.append(w[0] + "raw " + " ".join(w[1:]))
+        if raw:
+            asan_info = asan_replay(raw)
+            if asan_info.get("asan_exit", 0) != 0:
+                ctx.violation("uniformgrid-find-last-bin",
+                              "sanitizer abort in the unguarded calculators on the corpus witness "
+                              "(read past the table)", asan_info)
+    if corpus_last and not orc.lastbin:
+        ctx.violation("uniformgrid-find-last-bin",
+                      "UniformGrid::find returns size-1 on the corpus witness: bin+1 is not a grid "
+                      "point and XsCalculator reads one past its table", corpus_last[0])
     if orc.lastbin:
         bi, v, idx = orc.lastbin[0]
         b = blocks[bi]
@@ -870,7 +952,9 @@ def run(ctx):
                 "bad-op/precond" % (48 if quick else 200),
         "op_mix": dict(sorted(kinds.items())), "oracle_counts": dict(sorted(orc.stats.items())),
         "oracle_failures": len(orc.fails), "diverging_ops": len(diverged),
-        "find_last_bin_cases": len(orc.lastbin), "oracle_inputs_patched": patched,
+        "find_last_bin_cases": len(orc.lastbin) + len(corpus_last), "oracle_inputs_patched": patched,
+        "corpus_ops": n_corpus, "asan_corpus": asan_info,
+        "loss_rounding_worst": {"abs": orc.worst_round[0], "at": orc.worst_round[1]},
         "blocks": len(blocks),
         "samples": [script[1][:200], script[len(script) // 2][:200], script[-6][:200]],
         "correspondence_broken": broken,
